@@ -4,6 +4,7 @@ CONSTANTS
   MinG = 3
   MaxG = 3
   MaxDepth = 2
+  MinDepth = 0
   MaxIn = 2
   MaxOut = 1
   MaxExtraOut = 0
@@ -11,6 +12,7 @@ CONSTANTS
   LeafChoices <- LeafQuick
   Kinds = {"graph"}
   MaxOutsCard = 9
+  Growing = FALSE
   EmitOn = TRUE
 INIT Init
 NEXT Next
